@@ -429,6 +429,8 @@ class Interp:
             newres = {}
             for h in heads:
                 r = results.get(id(h))
+                if r is not None and r[0] is not h:
+                    r = None
                 if r is None:
                     mark = len(log)
                     backs = []
@@ -446,7 +448,7 @@ class Interp:
             allbacks = []
             for h in heads:
                 allbacks.extend(results[id(h)][1])
-            self._leq_dbg = rounds >= 8 and fn.name == '_advance_parsing'
+            self._leq_dbg = bool(os.environ.get('ABSINT_LEQ')) and rounds >= 8 and fn.name == '_advance_parsing'
             uncovered = [b for b in allbacks if not self.covered(fn, lp, b, heads)]
             self._leq_dbg = False
             if os.environ.get('ABSINT_LOOPS'):
@@ -875,6 +877,8 @@ class Interp:
                 sig[i][hs] = v.off
             places.append((descr, hs, 64))
             return Ptr(v0.region, Aff.sym(hs))
+        if descr[0] != 'env' and all(isinstance(v, (Ptr, Null)) for v in vals):
+            return None
         return Top('ptr' if any(isinstance(v, (Ptr, Null, Fn, Top)) for v in vals) else 'int', 'join')
 
     def candidates(self, H, states, sig, places, common, houdini=False):
@@ -1094,15 +1098,16 @@ class Interp:
                 return self._why(13, locals())
         for sym, (lo, hi) in HS.ivl.items():
             if sym in sigma:
-                a, b = SS.bounds(sigma[sym])
-                if a < lo and SS.entails_ge0(sigma[sym].sub(lo)):
-                    a = lo
-                if b > hi and SS.entails_ge0(sigma[sym].neg().add(hi)):
-                    b = hi
+                ex = sigma[sym]
             elif sym in SS.ivl:
-                a, b = SS.ivl[sym]
+                ex = Aff.sym(sym)
             else:
                 continue
+            a, b = SS.bounds(ex)
+            if a < lo and SS.entails_ge0(ex.sub(lo)):
+                a = lo
+            if b > hi and SS.entails_ge0(ex.neg().add(hi)):
+                b = hi
             if a < lo or b > hi:
                 return self._why(14, locals())
         for e in HS.rel:
